@@ -61,7 +61,18 @@ fn exercise<F: Function<Trace = VmTrace> + MathFunction>(dag: &Dag, p: &[f32], b
     if point_eval(&f, &dag.vs, p).is_err() { bad.push(format!("kind=panic evaluator=point backend={backend}")); }
     match interval_eval(&f, &dag.vs, bx) {
         Err(_) => { bad.push(format!("kind=panic evaluator=interval backend={backend}")); itext = "panic".into(); }
-        Ok((o, _)) => {
+        Ok((o, tr)) => {
+            // a trace that comes back has every clause decided (no Unknown), and the function can be simplified with it
+            if let Some(codes) = &tr {
+                if codes.iter().any(|c| *c == 0) { bad.push(format!("kind=unknown-choice-in-trace evaluator=interval backend={backend} trace={codes:?}")); }
+                let t = make_trace(codes); let mut ws = Default::default();
+                match catch_unwind(AssertUnwindSafe(|| f.simplify(&t, Default::default(), &mut ws).map(|f1| point_eval(&f1, &dag.vs, p).is_ok()))) {
+                    Ok(Ok(true)) => {}
+                    Ok(Ok(false)) => bad.push(format!("kind=panic evaluator=point-of-simplified backend={backend}")),
+                    Ok(Err(_)) => bad.push(format!("kind=simplify-rejects-own-trace evaluator=interval backend={backend}")),
+                    Err(_) => bad.push(format!("kind=panic evaluator=simplify-with-own-trace backend={backend} trace={codes:?}")),
+                }
+            }
             for i in &o {
                 if half_nan(i) { bad.push(format!("kind=half-nan-interval evaluator=interval backend={backend} interval=[{}, {}]", i.lower(), i.upper())); }
                 else if !i.lower().is_nan() && i.lower() > i.upper() { bad.push(format!("kind=inverted-interval evaluator=interval backend={backend} interval=[{}, {}]", i.lower(), i.upper())); }
@@ -71,6 +82,27 @@ fn exercise<F: Function<Trace = VmTrace> + MathFunction>(dag: &Dag, p: &[f32], b
     }
     let pts: Vec<Vec<f32>> = (0..5).map(|k| p.iter().map(|v| if k == 0 { *v } else { *v * (k as f32) }).map(|v| if v.is_finite() { v } else { f32::MAX }).collect()).collect();
     if slice_eval(&f, &dag.vs, &pts).is_err() { bad.push(format!("kind=panic evaluator=float-slice backend={backend}")); }
+    // an empty batch on FRESH bulk evaluators: one (empty) result per output, at the function level and through the shape wrapper
+    let empty = catch_unwind(AssertUnwindSafe(|| {
+        let mut bad = vec![];
+        let nv = var_order(&f).len();
+        let no = f.output_count();
+        let st = f.float_slice_tape(Default::default());
+        let mut se = F::new_float_slice_eval();
+        match se.eval(&st, &vec![Vec::<f32>::new(); nv]) { Ok(o) => if o.len() != no || (0..o.len()).any(|k| !o[k].is_empty()) { bad.push(format!("float-slice: {} result arrays for {no} outputs", o.len())); }, Err(e) => bad.push(format!("float-slice: {e}")) }
+        let gt = f.grad_slice_tape(Default::default());
+        let mut ge = F::new_grad_slice_eval();
+        match ge.eval(&gt, &vec![Vec::<Grad>::new(); nv]) { Ok(o) => if o.len() != no || (0..o.len()).any(|k| !o[k].is_empty()) { bad.push(format!("grad-slice: {} result arrays for {no} outputs", o.len())); }, Err(e) => bad.push(format!("grad-slice: {e}")) }
+        let shape = Shape::<F>::new(&dag.ctx, dag.roots[0]).unwrap();
+        if shape.inner().vars().iter().all(|(v, _)| matches!(v, Var::X | Var::Y | Var::Z)) {
+            let t = shape.ez_float_slice_tape(); let mut e = Shape::<F>::new_float_slice_eval();
+            match e.eval(&t, &[], &[], &[]) { Ok(o) => if !o.is_empty() { bad.push("shape float-slice: non-empty result for an empty batch".into()); }, Err(e) => bad.push(format!("shape float-slice: {e}")) }
+            let t = shape.ez_grad_slice_tape(); let mut e = Shape::<F>::new_grad_slice_eval();
+            match e.eval(&t, &[], &[], &[]) { Ok(o) => if !o.is_empty() { bad.push("shape grad-slice: non-empty result for an empty batch".into()); }, Err(e) => bad.push(format!("shape grad-slice: {e}")) }
+        }
+        bad
+    }));
+    match empty { Ok(b) => for m in b { bad.push(format!("kind=empty-batch evaluator=bulk backend={backend} {m}")); }, Err(_) => bad.push(format!("kind=panic evaluator=bulk-empty-batch backend={backend}")) }
     let g = catch_unwind(AssertUnwindSafe(|| {
         let order = var_order(&f);
         if order.is_empty() { return; }
